@@ -138,7 +138,7 @@ COSTY = dict(push=20, pseudo=2, dup=12, swap=10, pop=5, bin=16, un=5, ter=1, env
 
 def block_strategy():
     return st.one_of(gen.block(max_len=16, profile=COSTY), gen.block(max_len=14, profile=gen.ARITH_PROFILE),
-                     gen.block(max_len=24, profile=gen.SPLIT_PROFILE), gen.corpus_block(), gen.kept_loads_block(), gen.two_store_block(), gen.dead_load_by_rule_block(), gen.unused_hashes_block(), gen.store_terms_block(), gen.swapped_commutative_block(), gen.operand_split_block())
+                     gen.block(max_len=24, profile=gen.SPLIT_PROFILE), gen.corpus_block(), gen.kept_loads_block(), gen.two_store_block(), gen.dead_load_by_rule_block(), gen.dup_tradeoff_block(), gen.dup_tradeoff_block(), gen.unused_hashes_block(), gen.store_terms_block(), gen.swapped_commutative_block(), gen.operand_split_block())
 
 
 def shard_random(n, sd, backends):
